@@ -21,7 +21,9 @@ RULE = (
     "raises a SchemaParseError subclass; a call returns or raises ValidationError / TypeError; "
     "anything else is a violation bucketed by (exception type, innermost statham frame); RecursionError "
     "is counted inconclusive; a case exceeding 20 s is re-run alone with a 120 s limit and only a "
-    "second timeout is reported. non-trivial = case containing >=1 widened feature; distinct = "
+    "second timeout is reported. One shard additionally drives a LONG CALL HISTORY (1600 / 6000 distinct "
+    "strings, each twice, then the first 50 again) through the process-wide built-in date-time and uuid "
+    "checkers, same oracle. non-trivial = case containing >=1 widened feature; distinct = "
     "canon(schema, value)"
 )
 ASSUMPTIONS = [
@@ -202,7 +204,53 @@ def evaluate(case, stats):
     return fails
 
 
+def history_strings(n, salt):
+    """Deterministic family of n distinct strings (garbage, near-misses and valid timestamps/uuids)."""
+    out = []
+    for i in range(n):
+        k = (i * 2654435761 + salt) % 4294967296
+        kind = k % 7
+        if kind == 0:
+            out.append(f"not a timestamp {i}")
+        elif kind == 1:
+            out.append(f"{1000 + k % 9000:04d}-{k % 14:02d}-{k % 33:02d}T{k % 25:02d}:{k % 61:02d}:{k % 62:02d}Z")
+        elif kind == 2:
+            out.append(f"{k:032x}"[:32])
+        elif kind == 3:
+            out.append(f"{k % 3000} days ago {i}")
+        elif kind == 4:
+            out.append("9" * (k % 40) + str(i))
+        elif kind == 5:
+            out.append(f"{2000 + k % 30}-01-{1 + k % 28:02d}T10:00:{k % 60:02d}+0{k % 10}:00")
+        else:
+            out.append(f"{k:08x}-{k % 65536:04x}-4{k % 4096:03x}-8{k % 4096:03x}-{k:012x}{i}")
+    return out
+
+
+def history_predicate(case, stats):
+    """A long call history against the process-wide built-in format checkers (each string twice,
+    early ones again at the end): every call must return or raise ValidationError/TypeError."""
+    from statham.schema.elements import String
+
+    fails = []
+    for fmt in ("date-time", "uuid"):
+        element = String(format=fmt)
+        strings = history_strings(case["n"], case["salt"])
+        sequence = [x for s_ in strings for x in (s_, s_)] + strings[:50]
+        for i, value in enumerate(sequence):
+            got = observe.verdict(element, value, check_input=False)
+            if got[0] == "crash":
+                fails.append({"sub": "history", "kind": f"call-raised:{got[1]}@{got[2].split(': ')[0]}",
+                              "format": fmt, "call_index": i, "value": value})
+                break
+        stats.case(f"history:{fmt}:{case['n']}:{case['salt']}", True, ["format-history:" + fmt], n=len(sequence),
+                   sample={"mode": "history", "format": fmt, "calls": len(sequence)})
+    return fails
+
+
 def predicate(case, stats):
+    if case.get("mode") == "history":
+        return history_predicate(case, stats)
     try:
         return with_limit(20, lambda: evaluate(case, stats))
     except Hang:
@@ -261,6 +309,11 @@ def atheris_campaign(ctx, stats):
 
 
 def run_shard(ctx, stats):
+    if ctx.shard == 15 or ctx.nshards < 16 and ctx.shard == ctx.nshards - 1:
+        case = {"mode": "history", "n": 1600 if ctx.quick else 6000, "salt": ctx.derived(3) % 100000}
+        fails = runner.triage(PID, case, history_predicate(case, stats), stats)
+        if fails:
+            return {"case": case, "failures": fails}
     failure = runner.hyp_run(ctx, stats, cases(), predicate, BUDGET[ctx.tier])
     if failure or ctx.quick or ctx.shard >= 4:
         return failure
